@@ -176,8 +176,35 @@ func c01Propfind(v *fsVisit, e *davExpect) (string, string) {
 				return "propfind-resourcetype", fmt.Sprintf("%s collection=%v want %v", p, isCol, n.Dir)
 			}
 		}
+		// a resource answers with the same properties and values whatever scope it is listed in: compare
+		// with its own Depth-0 answer taken in the same state (model-free; catches values carried over
+		// from another listed member)
+		if own := v.Probe[p].Props; own != nil && !unclean[p] && v.Req.Path != "" {
+			listed := map[string]bool{}
+			for _, mp := range r.Props {
+				if mp.Status != 200 {
+					continue
+				}
+				k := "{" + mp.Node.Space + "}" + mp.Node.Local
+				listed[k] = true
+				ov, ok := own[k]
+				if !ok {
+					return "propfind-member-differs-from-own-answer", fmt.Sprintf("%s reports %s, its own Depth-0 answer has no such property", p, k)
+				}
+				if e.Form != "propname" && ov != mp.Node.Canon() {
+					return "propfind-member-differs-from-own-answer", fmt.Sprintf("%s %s = %s, own Depth-0 answer %s", p, k, mp.Node.Canon(), ov)
+				}
+			}
+			if e.Form == "allprop" || e.Form == "propname" {
+				for k := range own {
+					if !listed[k] {
+						return "propfind-member-differs-from-own-answer", fmt.Sprintf("%s lacks %s which its own Depth-0 answer has", p, k)
+					}
+				}
+			}
+		}
 		if n.Dir {
-			continue // properties of collections other than resourcetype are not judged
+			continue // a collection's own properties other than resourcetype are judged relationally only (above)
 		}
 		pr := v.Probe[p]
 		for _, local := range c01LiveProps[1:] {
